@@ -563,6 +563,8 @@ class HierApplyFilter(Contract):
     classes = {"RTDC_Hierarchy": (HBASE, "RTDC_Hierarchy")}
     class_modules = {"RTDC_Hierarchy": HBMOD}
     params = ("self",)
+    inline = {"RTDC_Hierarchy." + nm for nm in ("basins", "features", "features_ancillary", "features_basin", "features_innate",
+                                                "features_loaded", "features_local", "features_scalar")}
 
     def __init__(self):
         super().__init__()
@@ -599,8 +601,13 @@ class HierApplyFilter(Contract):
         n = ctx.int("n_child", lo=0, inp=True)
         stale = ctx.obj("ChildScalar", {"stale": True})
         stale2 = ctx.obj("ChildNDArray", {"stale": True})
-        parent = ctx.obj("DS", {}, name="hparent")
-        flt = ctx.obj("HFilter", {})
+        # (the feature lists of a child are those of its parent)
+        parent = ctx.obj("DS", {"features": ["deform", "image", "emodulus", "userdef1"], "features_ancillary": ["emodulus"],
+                                "features_innate": ["deform", "image"], "features_loaded": ["deform", "image"],
+                                "features_local": ["deform", "image", "emodulus"], "features_basin": [],
+                                "features_scalar": ["deform", "emodulus", "userdef1"], "basins": []}, name="hparent")
+        # whether the parent changed is not for this function to look at: the cached objects go in any case
+        flt = ctx.obj("HFilter", {"parent_changed": ctx.bool("parent_changed", inp=True), "is_new": False})
         self_ = ctx.obj("RTDC_Hierarchy", {"_ds_filter": flt, "filter": flt, "hparent": parent, "_length": Z(5),
                                            "_events": {"deform": stale, "image": stale2, "emodulus": stale,
                                                        "userdef1": stale},
@@ -635,6 +642,80 @@ class HierApplyFilter(Contract):
 
 
 UNITS += [HierApplyFilter()]
+
+
+class CheckParentFilter(Contract):
+    """RTDC_Hierarchy._check_parent_filter(): when the parent changed, the manual exclusions (root ids) are taken
+    from the old filter, a new HierarchyFilter is created and *always* receives them -- also when the child is
+    empty at the moment or nothing is excluded visibly (the ids must survive until the events come back);
+    when the parent did not change nothing happens."""
+    path = HBASE
+    module = HBMOD
+    name = "RTDC_Hierarchy._check_parent_filter"
+    qualname = "RTDC_Hierarchy._check_parent_filter"
+    classes = {"RTDC_Hierarchy": (HBASE, "RTDC_Hierarchy")}
+    class_modules = {"RTDC_Hierarchy": HBMOD}
+    params = ("self",)
+
+    def __init__(self):
+        super().__init__()
+        unit = self
+
+        class Retrieve(Contract):
+            name = "HFilter.retrieve_manual_indices"
+            trusted = True
+
+            def __call__(s, interp, flt, ds):
+                unit._log.append(("retrieve", flt.fields["is_new"]))
+                return unit._ids
+
+        class Apply(Contract):
+            name = "HFilter.apply_manual_indices"
+            trusted = True
+
+            def __call__(s, interp, flt, ds, ids):
+                unit._log.append(("apply", flt.fields["is_new"], ids is unit._ids))
+                return None
+
+        class AssertFilter(Contract):
+            """RTDCBase._assert_filter: creates the filter object if there is none"""
+            name = "RTDC_Hierarchy._assert_filter"
+            trusted = True
+
+            def __call__(s, interp, ds):
+                if ds.fields.get("_ds_filter") is None:
+                    new = interp.ctx.obj("HFilter", {"parent_changed": False, "is_new": True})
+                    interp.heap_write(ds)
+                    ds.fields["_ds_filter"] = new
+                    ds.fields["filter"] = new
+                    unit._log.append(("new filter",))
+                return None
+        self.callees = {"HFilter.retrieve_manual_indices": Retrieve(), "HFilter.apply_manual_indices": Apply(),
+                        "RTDC_Hierarchy._assert_filter": AssertFilter(),
+                        "RTDC_Hierarchy.__len__": LogCall("len(self)", ret=lambda i, o: o.fields["_n"])}
+
+    def inputs(self, ctx):
+        self._log = []
+        n = ctx.int("n_child", lo=0, inp=True)
+        ids = ctx.arr("manual_root_ids", "int", inp=True)
+        self._ids = ids
+        self._changed = ctx.bool("parent_changed", inp=True)
+        flt = ctx.obj("HFilter", {"parent_changed": self._changed, "is_new": False})
+        self._flt = flt
+        self_ = ctx.obj("RTDC_Hierarchy", {"_ds_filter": flt, "filter": flt, "hparent": ctx.obj("DS", {}, name="hparent"),
+                                           "_n": n}, name="self")
+        return {"self": self_}
+
+    def ensures(self, ctx, old, a, result):
+        log = [x for x in self._log if isinstance(x, tuple)]
+        changed = [("retrieve", False), ("new filter",), ("apply", True, True)]
+        return [("parent changed: ids taken from the old filter, a new filter created, the ids handed to the new filter",
+                 z3.Implies(self._changed.e, z3.BoolVal(log == changed))),
+                ("parent unchanged: the filter object stays and nothing is re-applied",
+                 z3.Implies(z3.Not(self._changed.e), z3.BoolVal(log == [] and a.self.fields["_ds_filter"] is self._flt)))]
+
+
+UNITS += [CheckParentFilter()]
 
 
 # ---------------------------------------------------------------- replay on the real code
